@@ -10,7 +10,10 @@ PS = "push/push_service.py"
 @class_invariant("TaskHandler")
 def inv_task_handler(S_, t):
     h = S_.new
+    kk = z3.Const("k!thinv", Val)
     return And(Val.is_VBool(h.f(t, "_open")), S_.pre(h.f(t, "_pending"), "dict"), h.dlen(h.f(t, "_pending")) >= 0,
+               # an empty dictionary has no keys (the dictionary model keeps length and domain separately)
+               Implies(h.dlen(h.f(t, "_pending")) == 0, z3.ForAll([kk], Not(h.dhas(h.f(t, "_pending"), kk)))),
                S_.dict_values(h.f(t, "_pending"), OBJ("Future", inv=False)),
                S_.pre(h.f(t, "_pool"), "ThreadPoolExecutor"), S_.pre(h.f(t, "_lock"), "Lock"),
                Val.is_VInt(h.f(t, "_job_id")))
@@ -33,6 +36,10 @@ def _add_done(it, args, kwargs, node, anchor):
 def _future_result(it, args, kwargs, node, anchor):
     it.st.log.append(LogEntry("Future.result", list(args), kwargs, None, anchor))
     it.st.log[-1].pre = it.st.snapshot()
+    # ghost: this future has been waited for (whether the wait ends with a value, the task's error or a timeout)
+    if it.tag(args[0], "future") == "ref":
+        it.st.set_field(Val.r(args[0]), "$waited", VTrue)
+        it.st.writes.pop()
     if it.ctx.branch(z3.Bool("future_result_raises!%d" % len(it.st.log)), "result raises"):
         it.raise_symbolic(anchor, "Exception", "task-failed-or-timeout")
     return it.ctx.fresh("task_result", Val)
@@ -102,7 +109,30 @@ def _flush_body(L):
             ("closed-before-waiting", And(*closed) if closed else z3.BoolVal(True))]
 
 
-c.loop("iter:dict(self._pending).keys()", body_ensures=_flush_body, body_no_raise=True, modifies=lambda L: [("all",)])
+def _all_waited(S_):
+    """'flush drains': every task that was pending when flush started has been waited for when it returns - also the ones
+    after a task that failed"""
+    h, n = S_.old, S_.new
+    P = h.f(S_.a.self, "_pending")
+    k = z3.Const("k!flw", Val)
+    return z3.ForAll([k], Implies(h.dhas(P, k), n.f(h.dget(P, k), "$waited") == VTrue))
+
+
+c.ens("every-pending-task-is-waited-for", _all_waited)
+
+
+def _flush_inv(L):
+    h, n = L.at_entry(), L.now()
+    me = L.pre_local("self")
+    P = h.f(me, "_pending")
+    pos = L.seq.pos()
+    k = z3.Const("k!fli", Val)
+    return And(n.f(me, "_open") == VFalse,
+               z3.ForAll([k], Implies(And(h.dhas(P, k), z3.Select(pos, k) < L.index), n.f(h.dget(P, k), "$waited") == VTrue)))
+
+
+c.loop("iter:dict(self._pending).keys()", invariant=_flush_inv, body_ensures=_flush_body, body_no_raise=True,
+       modifies=lambda L: [("field*", "$waited")])
 
 # ---------------------------------------------------------------- PushService.push_snapshot / _push_task
 c = contract(PS, "PushService.push_snapshot", ["C09"])
